@@ -256,6 +256,10 @@ class SigmaFilter(SigmaRuleBase):
                 # "them" means all detections; replace with a pattern that matches all
                 # filter identifiers carrying the current prefix.
                 return prefix + "_*"
+            if "*" not in token and token not in self.filter.detections:
+                # The filter condition refers to a detection the filter doesn't define. This is
+                # reported when the rule is converted; keep the random prefix out of that error.
+                return "_filt_undefined_" + token
             return prefix + "_" + token
 
         filter_condition = re.sub(
